@@ -30,6 +30,8 @@ func genProgram(g *tape.Stream, p *Profile, isFinal bool) []Act {
 			nexts++
 		case OpRender:
 			a.A = int32(g.Intn(8))
+		case OpFlush:
+			a.A = int32(g.Intn(2)) // 1: through an http.ResponseController
 		case OpBefore:
 			a.A = int32(i)
 		case OpPanic:
